@@ -694,11 +694,15 @@ Proof.
   match goal with H : prefix_is _ _ None = true |- _ => apply prefix_is_eq in H; rename H into He57 end.
   assert (Hguid : rt_guid (fm_root m) <> []).
   { intro E. unfold gen_root, serialize_root in Hgen. rewrite E in Hgen. discriminate. }
-  rewrite (gen_root_bytes m Hfmt Hguid) in Hgen. injection Hgen as <-.
+  assert (Hbs : bs = XML_DECL ++ LF ++ root_open (fm_extensions m) ++ root_body m ++ close_tag (B "e57Root") ++ LF).
+  { rewrite (gen_root_bytes m Hfmt Hguid) in Hgen. congruence. }
+  clear Hgen. subst bs.
   destruct (root_children m) as [ch [Hch Hrl]]; try assumption.
-  unfold render, tree_of. cbn [xd_children rc_bom rc_decl writer_choices render_decl render_doc_nodes rc_doc_ws app].
+  pose proof (render_root (fm_extensions m) ch (root_body m) He57 Hrl) as Hr. clear Hrl.
+  revert Hr. generalize (root_body m). intros rb Hr.
+  unfold render, tree_of. cbn [xd_children rc_bom rc_decl writer_choices render_decl render_doc_nodes rc_doc_ws].
   change (blanks [10]) with [10].
-  rewrite Hch, (render_root (fm_extensions m) ch (root_body m) He57 Hrl).
+  rewrite Hch, Hr.
   unfold XML_DECL, DECL_STD, root_open, close_tag, E57_NS, LF. listnorm. reflexivity.
 Qed.
 
